@@ -43,7 +43,7 @@ SelS == Sel @@ [cons |-> [k |-> "lit", t |-> "string"]]   \* (a JSON string unde
 RemS == Blk(<<L(TRUE), L(FALSE)>>, Body([enabled |-> A(FALSE)], EmptyFn, NoExt),
             << [lk |-> << <<0, "rs">> >>, ak |-> <<>>, body |-> Body([backend |-> SelS, workspace |-> A(FALSE)], EmptyFn, NoExt)],
                [lk |-> << <<0, "rs">> >>, ak |-> << <<"backend", Str("s3")>> >>, body |-> Body([backend |-> SelS, bucket |-> A(FALSE)], EmptyFn, NoExt)] >>)
-Schemas == { s \in { Body([plain |-> A(FALSE)], [var |-> VarS, res |-> ResS(un), loc |-> LocS(r, t), mod |-> ModS, byval |-> ByValS(o), outer |-> OuterS, dyn |-> DynS, rem |-> RemS], NoExt)
+Schemas == { s \in { Body([plain |-> A(FALSE), prov |-> A(FALSE) @@ [cons |-> [k |-> "refdecl"]]], [var |-> VarS, res |-> ResS(un), loc |-> LocS(r, t), mod |-> ModS, byval |-> ByValS(o), outer |-> OuterS, dyn |-> DynS, rem |-> RemS], NoExt)
              : un \in BOOLEAN, r \in BOOLEAN, t \in BOOLEAN, o \in BOOLEAN } :
              s.blocks["loc"].body.anyaddr.asRef \/ s.blocks["loc"].body.anyaddr.asType }   \* (an address schema needs at least one of the two)
 
@@ -67,6 +67,7 @@ Pool == { B("var", <<"a">>, <<AtV("type", Ty("string"))>>), B("var", <<"b">>, <<
           B("dyn", <<"d2">>, <<B("setting", <<>>, <<At("key")>>)>>),
           B("rem", <<"rs", "partial">>, <<At("enabled"), AtV("backend", Str("local")), At("workspace")>>),
           B("rem", <<"rs", "full">>, <<AtV("backend", Str("s3")), At("bucket")>>),
+          AtV("prov", [k |-> "legref", v |-> "aws.west", addr |-> <<"aws", "west">>]), AtV("prov", [k |-> "legref", v |-> "aws", addr |-> <<"aws">>]),
           B("zz", <<"q">>, <<At("x")>>), At("plain"), At("unknown_attr") }
 NoDupAttr(d) == \A i, j \in DOMAIN d : d[i].k = "attr" /\ d[j].k = "attr" /\ d[i].name = d[j].name => i = j
 Docs == { d \in UNION { [1..n -> Pool] : n \in 0..MaxItems } : NoDupAttr(d) }
